@@ -58,18 +58,17 @@ PROPS = {
         "fill (zero pattern exact, fixed rows exact), spsolve residual, box-plus update; each stage fed the implementation's own upstream values; non-trivial = one graph",
         assumptions=["real arithmetic", "spsolve returns the solution of the assembled system (its residual is checked on every recorded call; it is a parameter of the model)",
                      "per-edge sum theorem: symmetric information matrix and pairwise distinct vertices within one edge (self-loop counterexample proved)"],
-        proved_level="partial",
-        unproved=["the last link 'dictionary -> dense H, b' (Model.fillHessian / fillGradient equal the dictionary values block by block) is tied by the exact correspondence check only; its theorem is not yet proved"],
         technique="Lean 4 proof: induction over edge and contribution lists for the block dictionaries of a hand model mirroring graph.py, tied by stage-wise correspondence",
         level_text="Proved for every edge list (any length, parallel edges, either vertex order, mixed dimensions, n-ary edges): the Hessian dictionary holds under (a,b), a<=b, the sum of contributions keyed (a,b) plus transposes of those keyed (b,a); "
         "no key with a>b exists; the gradient dictionary and chi2 are plain sums; for symmetric Omega and distinct vertices one edge contributes exactly the (a,b) block of Jbar^T Omega Jbar and the a block of Jbar^T Omega e (ordered-pair sum), "
-        "with a proved counterexample for self-loop edges. PARTIAL: the dense fill step is checked by correspondence, not yet by theorem.",
+        "with a proved counterexample for self-loop edges; the dense fill is proved block by block (assignment is justified by disjoint index ranges; prefix-sum layouts are proved to be layouts), giving assembled_hessian / assembled_gradient: "
+        "H[g_u+s,g_w+t] = sum_e sum_{x,y in e}[g_x=g_u, g_y=g_w](J_x^T Omega J_y)[s,t] and b likewise for free vertices, identity/zero for fixed ones.",
         level_note="Hand model (Model/Assembly.lean) tied by tools/harness/assembly.py; spsolve is a parameter.",
     ),
     "C06": dict(
         modules=["GraphSlam.Props.C06"],
-        theorem_files=["GraphSlam/Props/C06/*.lean"],
-        scan_files=["GraphSlam/Core/*.lean", "GraphSlam/Model/Assembly.lean"],
+        theorem_files=["GraphSlam/Props/C06/*.lean", "GraphSlam/Props/C03/Assembled.lean"],
+        scan_files=["GraphSlam/Core/*.lean", "GraphSlam/Model/Assembly.lean", "GraphSlam/Props/C03/*.lean"],
         corr=[("harness.entry", "assembly", dict(quick=80, thorough=3000))],
         search=("search.entry", "c06"),
         always_search=True,
@@ -80,7 +79,8 @@ PROPS = {
         technique="Lean 4 proof: invariant by induction over iterations of a hand model mirroring the update loop, solver universally quantified; tied by correspondence",
         level_text="Proved: for any solver behaviour, any number of iterations, any pose type, a fixed vertex has exactly the same pose (Model.applyDx mirrors graph.py's update loop after the C06 repair); "
         "free vertices get pose [+] dx[g:g+c]; fix_first_pose sets exactly the first flag; the fixed index set is exactly the indices of flagged vertices. "
-        "That the free block solves the reduced system relies on C03's fill step (correspondence-checked: fixed rows/cols exactly identity).",
+        "The assembled H has identity diagonal blocks and zero off-diagonal blocks for every fixed vertex (touched by an edge or not) and b is zero there (fixed_diagonal_identity, fixed_column_zero, assembled_gradient), "
+        "so the equations of the free rows involve no fixed unknown: the free block solves the reduced problem and fixing a vertex never makes H singular by itself.",
         level_note="Hand model tied by tools/harness/assembly.py and the direct search; the code was repaired first (known_findings.json: fixed C06 4d1b12c).",
     ),
     "C12": dict(
